@@ -473,6 +473,7 @@ def rule_copy_fresh(ctx: Ctx) -> RuleResult:
 
 def run(ctx: Ctx):
     p = ctx.p
+    from ..rules import optcall
     from . import c16
 
     shared = []
@@ -493,6 +494,7 @@ def run(ctx: Ctx):
         rule_empty_guard(ctx),
         rule_command_else(ctx),
         rule_copy_fresh(ctx),
+        optcall.run_optcall(p, "C08.13", ("urwid.widget",), floor=35),
     ]
 
 
